@@ -222,3 +222,16 @@ def report(ctx):
         contract_evals=ctx.contract_evals, fp_events=ctx.fp,
         lines_reached=by_file, wrapped=[f'{a}x{b}' for a, b in ctx.wrapped],
     )
+
+
+def is_library_exception(e):
+    """True if the exception was raised below a pb_bss frame (library / numpy / scipy code called by the
+    library), False if it comes from the harness itself (a harness bug must surface, not be counted)."""
+    tb = e.__traceback__
+    seen_lib = False
+    while tb is not None:
+        fn = tb.tb_frame.f_code.co_filename
+        if '/pb_bss/' in fn:
+            seen_lib = True
+        tb = tb.tb_next
+    return seen_lib
